@@ -138,16 +138,23 @@ def own(ctx, o, eff):
                         continue
                 if f.qual in OWNERS[w.field] or (f.parent is not None and f.parent.qual in OWNERS[w.field]):
                     o.site(f, w.node, f"{w.kind} {unmangle(w.field)}")
+                elif w.field == '_list' and f.cls == '_ChildrenList' and _removal_then_reparent(f, w):
+                    # both ends are updated (list entry removed here, parent pointer through the validating setter): the forest
+                    # can stay well-formed, but this writer is not part of the inductive argument
+                    o.undecided(f, w.node, f"{w.kind} of {unmangle(w.field)}",
+                                f"{f.name} takes a task out of the shared child list itself (`{src(w.node)[:50]}`) and re-assigns its parent "
+                                f"through the setter afterwards: a writer outside the owner set that the argument does not cover")
                 else:
                     o.refute(f, w.node, f"{w.kind} of {unmangle(w.field)}", f"{unmangle(w.field)} is written outside its owner set "
                              f"({', '.join(sorted(x.split('.', 1)[1] for x in OWNERS[w.field]))}): [{src(w.node)[:70]}] bypasses the guards")
         # dynamic attribute stores with computed names must be restricted to public names
         for w in eff.direct_writes(f):
             if w.field == '<dynamic>' and f.module.name in ('task', 'wbs') and f.cls in ('Task', 'WBS', '_ImmutableTaskList'):
-                conds = facts.node_conditions(prog, f, w.node, ctx.typer, expand=False)
+                conds = facts.node_conditions(prog, f, w.node, ctx.typer, expand=False) + \
+                    facts.node_conditions(prog, f, w.node, ctx.typer, expand=True)
                 key = w.node.args[0] if isinstance(w.node, ast.Call) and w.node.args else None
                 okc = key is not None and isinstance(key, ast.Name) and any(
-                    (match(f"{key.id}.startswith('_')", t) and not p) or (match(f"not {key.id}.startswith('_')", t) and p) for t, p in conds)
+                    facts.cond_is(t, p, f"{key.id}.startswith('_')", False) is not None for t, p in conds)
                 recv_super = isinstance(w.node, ast.Call) and isinstance(w.node.func, ast.Attribute) and \
                     isinstance(w.node.func.value, ast.Call) and getattr(w.node.func.value.func, 'id', '') == 'super'
                 if okc or recv_super or f.name == '__init__' or w.root == 'fresh' or _only_init_or_fresh(ctx, eff, f, w):
@@ -160,6 +167,33 @@ def own(ctx, o, eff):
             o.refute(t.methods[bad], t.methods[bad].node, bad, f"Task defines {bad}: membership tests in the guards no longer compare task objects")
     if not any(b in t.methods for b in ('__eq__', '__hash__')):
         o.site(None, None, "task.py Task: no __eq__/__hash__")
+
+
+def _removal_then_reparent(f, w) -> bool:
+    """the write is `self._list.remove(x)` and on every way on x's parent is assigned afterwards (`x.parent = ..`)"""
+    c = w.node
+    if not (isinstance(c, ast.Call) and isinstance(c.func, ast.Attribute) and c.func.attr == 'remove' and len(c.args) == 1 and
+            isinstance(c.args[0], ast.Name)):
+        return False
+    x = c.args[0].id
+    cfg = cfg_of(f)
+    wn = cfg.node_containing(c)
+    stores = [cfg.node_of(st) for st, tgt, val in facts.attr_stores(f, 'parent') if isinstance(tgt.value, ast.Name) and tgt.value.id == x]
+    stores = [n for n in stores if n is not None and wn is not None and cfg.can_reach(wn, n)]
+    if not stores:
+        return False
+    # no way from the removal to the exit that avoids every such store
+    avoid = {n.id for n in stores}
+    seen, todo = set(), list(wn.succ)
+    while todo:
+        n = todo.pop()
+        if n.id in seen or n.id in avoid:
+            continue
+        seen.add(n.id)
+        if n is cfg.exit:
+            return False
+        todo.extend(n.succ)
+    return True
 
 
 def _only_init_or_fresh(ctx, eff, f, w) -> bool:
@@ -216,10 +250,48 @@ def guards(ctx, o, eff, name):
     if not writes:
         o.fail(f"{f.qual}: no relation write found")
         return
+    if name == 'children':
+        writes = _without_symmetric_unlinks(f, writes)
     for label, R, needs_elem in REQ[name]:
         T.require(ctx, o, f, label, R, writes, eff, needs_elem)
     if name in ('predecessors', 'successors'):
         _constructor_path(ctx, o, eff, name)
+
+
+def _without_symmetric_unlinks(f, writes):
+    """a child taken out of self.__children together with `child.__parent = None` (same loop round) leaves the forest well-formed at
+    once: such a pair may come before a rejection as far as C01 is concerned (that the rejected call changed something is C15)"""
+    cfg = cfg_of(f)
+    s = f.self_name
+    drop = set()
+    for cn, node, desc in writes:
+        m = match(f"{s}._Task__children.remove($v)", node) if isinstance(node, ast.Call) else None
+        if not (m and isinstance(m['v'], ast.Name)):
+            continue
+        v = m['v'].id
+        fors = cfg.enclosing_fors(cn)
+        conds = [id(t) for t, p in cfg.conditions(cn)]
+        for cn2, node2, desc2 in writes:
+            st = node2 if isinstance(node2, ast.Assign) else None
+            tg = None
+            if isinstance(node2, ast.Attribute):
+                tg = node2
+            elif st is not None and len(st.targets) == 1:
+                tg = st.targets[0]
+            if isinstance(tg, ast.Attribute) and tg.attr == '_Task__parent' and isinstance(tg.value, ast.Name) and tg.value.id == v and \
+                    fors and cfg.enclosing_fors(cn2) == fors and [id(t) for t, p in cfg.conditions(cn2)] == conds:
+                val = _stored_none(f, tg)
+                if val:
+                    drop.add(id(node))
+                    drop.add(id(node2))
+    return [w for w in writes if id(w[1]) not in drop]
+
+
+def _stored_none(f, target) -> bool:
+    for n in walk_no_nested(f.node):
+        if isinstance(n, ast.Assign) and any(t is target for t in n.targets) or (isinstance(n, ast.Assign) and n is target):
+            return isinstance(n.value, ast.Constant) and n.value.value is None
+    return False
 
 
 def _constructor_path(ctx, o, eff, name):
@@ -1271,10 +1343,22 @@ def mirror_parent(ctx, o):
       for r0 in raw:
         ok_conds = (f"{s}._Task__parent is None", f"{s} in {s}._Task__parent._Task__children", f"{p} is None", f"{s}._Task__wbs is None")
         extra = []
-        for t, q in xconds(r0):
+        rn0 = cfg.node_containing(r0)
+        xc = []
+        for t0, q0 in cfg.conditions(rn0):
+            # residues of guards (an `if ..: raise/return` that did not fire) are not conditions of the removal; decided on the
+            # statement the RAW test belongs to (the expanded test no longer looks like it when locals were hoisted)
+            holder = next((n for n in walk_no_nested(f.node) if isinstance(n, (ast.If, ast.While)) and n.test is t0), None)
+            if holder is not None and not any(x is r0 for x in ast.walk(holder)):
+                branch = holder.body if not q0 else holder.orelse
+                if branch and isinstance(branch[-1], (ast.Raise, ast.Return)):
+                    continue
+            tn0 = cfg.node_containing(t0)
+            for a, qa in facts.split_conj(ex.expand(t0, tn0) if tn0 is not None else t0, q0):
+                xc.append(facts.norm_cond(a, qa))
+        for t, q in xc:
             if any(match(pat, t) for pat in ok_conds):
                 continue
-            # residues of guards (an `if ..: raise` that did not fire) are not conditions of the removal
             iff = _if_of(f, t) or _if_of_src(f, t)
             if iff is not None and any(isinstance(x, ast.Raise) for x in ast.walk(iff)) and not any(x is r0 for x in ast.walk(iff)):
                 continue
@@ -1692,9 +1776,12 @@ def _alias(f, e, at):
 def _published(ctx, o, f):
     """after the last change of self._list the setter callback is called with it on every normal path"""
     cfg = cfg_of(f)
-    calls = [c for c in facts.calls_named(f, '__setter') if match("self._ChildrenList__setter(self._list)", c)]
+    calls = [c for c in facts.calls_named(f, '__setter') if match("self._ChildrenList__setter(self._list)", T.expand_call(ctx.prog, f, ctx.typer, c))]
     if not calls:
-        o.refute(f, f.node, 'publish', f"{f.name} never hands the new list to the owner (self.__setter(self._list))")
+        if facts.calls_named(f, '__setter'):
+            o.undecided(f, f.node, 'publish', f"{f.name} calls the publish callback with something the rule does not recognise as the shared list")
+        else:
+            o.refute(f, f.node, 'publish', f"{f.name} never hands the new list to the owner (self.__setter(self._list))")
         return
     pub_ids = {cfg.node_containing(c).id for c in calls}
     eff = Effects(ctx.prog, ctx.typer, ctx.cg)
